@@ -251,9 +251,10 @@ ReadSeesLatestEarlierWrite ==
   /\ \A i \in 1..Len(rsps) : rsps[i].k = "r" => rsps[i].d = ExpOf(rsps[i].to)
   /\ \A id \in DOMAIN rdata : rdata[id] = ExpOf(id)
 
-\* requests to the same address take effect in arrival order
+\* requests to the same address take effect in arrival order (the order of two reads has no effect to speak of)
+Conflict(i, j) == Overlap(i, j) /\ (reqs[i].k = "w" \/ reqs[j].k = "w")
 SameAddrInArrivalOrder ==
-  \A i, j \in 1..Len(reqs) : (i < j /\ Overlap(i, j) /\ j \in done) => i \in done
+  \A i, j \in 1..Len(reqs) : (i < j /\ Conflict(i, j) /\ j \in done) => i \in done
 
 \* the store is the flat memory of the committed writes: masked writes modify only their enabled bytes
 RECURSIVE FlatDone(_)
